@@ -14,14 +14,15 @@ Reading guide (clauses of the property → theorems):
 * "comments and whitespace anywhere" → `skips_whitespace`, `skips_line_comment`,
   `skips_block_comment`, `skips_concat`
 * "rejected with an error … never crashes" → `parse_total` (model; the Go side is the tie)
-* "applies documented defaults" → `defaults_applied`
+* "applies documented defaults" → `defaults_applied` (+ `_scalar`, `_any_depth`),
+  `default_routing_fallback_applied`, `default_http_method_applied`
 * "rejects unknown sections and keys, missing required ones" → `unknown_section_rejected`,
   `missing_required_section_rejected`, `unknown_key_rejected`, `missing_required_key_rejected`
 * "rule programs beyond the supported size" → `oversize_rejected`, `compiled_within_limit`
 * "merges included files deterministically (the including file first, then each included file in
   listed order)" → `merge_order`, `merge_into_appends`
 * "rejecting circular includes" → `circular_include_rejected`, `include_of_visited_rejected`,
-  `merge_no_file_twice`
+  `merge_no_file_twice`, `merge_terminates`
 * "never reading a file that is not a .dae file or that lies outside the entry configuration
   directory" → `merge_reads_confined`, `confined_means_under`
 -/
@@ -240,12 +241,32 @@ example : ensureInSubDir ['/', 'e', '/', 's', '/', 'a'] ['/', 'e'] = true ∧
     ensureInSubDir ['/', 'e', '/', '.', '.', '/', 'b'] ['/', 'e'] = false ∧
     ensureInSubDir ['/', 'e', 'x', '/', 'b'] ['/', 'e'] = false := by decide
 
-/-- Termination of the real merger on a finite directory tree: stated, not proved (the model
-takes the number of files + 2 as fuel; the tie exercises cyclic graphs). -/
-def merge_terminates_full : Prop :=
-  ∀ (K : Classes) (fs : FS) (files : List (List Char)) (entry : List Char),
-    (∀ p, (fs.stat p).isSome → p ∈ files) →
-    (merge K fs (files.length + 2) entry).2 ≠ .error .fuel
+/-- **Termination.** On a file system with finitely many files (`files` lists every path that can
+be stat-ed), the merge never runs out of fuel when given at least `|files| + 1` levels: every
+nested `dfsMerge` call has added a new, existing file to the duplicate-free visited list, so the
+nesting depth is bounded by the number of files (pigeonhole).  The driver runs with `|files| + 2`. -/
+theorem merge_terminates (K : Classes) (fs : FS) (files : List (List Char)) (entry : List Char) (fuel : Nat)
+    (hfiles : ∀ p, (fs.stat p).isSome = true → p ∈ files) (hfuel : files.length + 1 ≤ fuel) :
+    (merge K fs fuel entry).2 ≠ .error .fuel :=
+  dfsMerge_not_fuel K fs (dirOf entry) files hfiles fuel ⟨[], []⟩ entry
+    ⟨List.nodup_nil, by simp⟩ (by simpa using hfuel)
+
+/-- the statement as first written in the design (fuel `|files| + 2`) -/
+theorem merge_terminates_full (K : Classes) (fs : FS) (files : List (List Char)) (entry : List Char)
+    (hfiles : ∀ p, (fs.stat p).isSome → p ∈ files) :
+    (merge K fs (files.length + 2) entry).2 ≠ .error .fuel :=
+  merge_terminates K fs files entry _ (fun p hp => hfiles p hp) (by omega)
+
+/-- non-vacuity: a two-file system whose files include each other; the merge stops with the
+circular-include error, not by exhausting its fuel -/
+example :
+    let fs : FS := { stat := fun p => if p = ['a', '.', 'd', 'a', 'e'] ∨ p = ['b', '.', 'd', 'a', 'e']
+                                     then some ⟨false, 0o600, []⟩ else none,
+                     glob := fun _ => some [] }
+    (merge stdK fs 3 ['a', '.', 'd', 'a', 'e']).2 ≠ .error .fuel := by
+  intro fs
+  exact merge_terminates stdK fs [['a', '.', 'd', 'a', 'e'], ['b', '.', 'd', 'a', 'e']] _ 3
+    (by intro p hp; simp only [fs] at hp; split at hp <;> simp_all) (by simp)
 
 /-! ## 3. Typed configuration -/
 
@@ -278,13 +299,27 @@ theorem missing_required_key_rejected (S : Schema) (dec : Dec) (n sid : Nat) (pa
   obtain ⟨sd, h1, _, h3⟩ := paramParser_ok S dec n sid path items st st' h
   exact ⟨sd, h1, h3⟩
 
-/-- **Documented defaults are applied — full strength.** In the typed configuration returned by
-`config.New`, every scalar field of a top-level struct section (`global`, `routing`, `dns`) that
-carries a `default:` tag and is not written in the configuration holds the decoded default,
-whether its section is present or omitted (2aec039).  Excluded by hypothesis are only the fields
-the patch stage rewrites on purpose (`global.tcp_check_http_method`, `routing.fallback`) and the
-derived flag `global.so_mark_from_dae_set`. -/
+/-- **Documented defaults are applied — full strength, every field kind.** In the typed
+configuration returned by `config.New`, every field of a top-level struct section (`global`,
+`routing`, `dns`) that carries a `default:` tag and is not written in the configuration holds its
+default — `FuzzyDecode` of the tag for scalars, the raw tag for interface fields
+(`routing.fallback`), `strings.Split(tag, ",")` for string lists (`tcp_check_url`,
+`udp_check_dns`) — whether its section is present or omitted (2aec039).  Excluded by hypothesis
+here are only the two fields the patch stage may rewrite on purpose; they are covered by
+`default_routing_fallback_applied` and `default_http_method_applied` below. -/
 theorem defaults_applied (S : Schema) (dec : Dec) (fuel : Nat) (ss : List ASection) (st' : Store)
+    (h : configNew S dec fuel ss = .ok st') (hnames : (S.specs.map (·.name)).Nodup)
+    (sp : SectionSpec) (hsp : sp ∈ S.specs) (sid : Nat) (sd : StructDef) (hkind : sp.kind = .struct sid)
+    (hsd : S.structs[sid]? = some sd) (hfnd : (sd.fields.map (·.key)).Nodup)
+    (f : Field) (hf : f ∈ sd.fields) (d : List Char) (hd : f.dflt = some d)
+    (hrk : f.key ≠ rulesKey) (hso : [sp.name, f.key] ≠ soMarkPath)
+    (hp1 : pHttpMethod ≠ [sp.name, f.key]) (hp2 : pFallback ≠ [sp.name, f.key])
+    (hno : ∀ it ∈ itemsOf ss sp.name, it.key? ≠ some f.key) :
+    ∃ leaf, defaultLeaf dec f.kind d = some leaf ∧ st'.get? [sp.name, f.key] = some leaf :=
+  configNew_defaults S dec fuel ss st' h hnames sp hsp sid sd hkind hsd hfnd f hf d hd hrk hso hp1 hp2 hno
+
+/-- the scalar reading of `defaults_applied` -/
+theorem defaults_applied_scalar (S : Schema) (dec : Dec) (fuel : Nat) (ss : List ASection) (st' : Store)
     (h : configNew S dec fuel ss = .ok st') (hnames : (S.specs.map (·.name)).Nodup)
     (sp : SectionSpec) (hsp : sp ∈ S.specs) (sid : Nat) (sd : StructDef) (hkind : sp.kind = .struct sid)
     (hsd : S.structs[sid]? = some sd) (hfnd : (sd.fields.map (·.key)).Nodup)
@@ -292,18 +327,49 @@ theorem defaults_applied (S : Schema) (dec : Dec) (fuel : Nat) (ss : List ASecti
     (hrk : f.key ≠ rulesKey) (hso : [sp.name, f.key] ≠ soMarkPath)
     (hp1 : pHttpMethod ≠ [sp.name, f.key]) (hp2 : pFallback ≠ [sp.name, f.key])
     (hno : ∀ it ∈ itemsOf ss sp.name, it.key? ≠ some f.key) :
-    ∃ c, dec k d = some c ∧ st'.get? [sp.name, f.key] = some (.scalar k c) :=
-  configNew_defaults S dec fuel ss st' h hnames sp hsp sid sd hkind hsd hfnd f hf k d hk hd hrk hso hp1 hp2 hno
+    ∃ c, dec k d = some c ∧ st'.get? [sp.name, f.key] = some (.scalar k c) := by
+  obtain ⟨leaf, hl, hg⟩ := defaults_applied S dec fuel ss st' h hnames sp hsp sid sd hkind hsd hfnd f hf d hd
+    hrk hso hp1 hp2 hno
+  rw [hk] at hl
+  simp only [defaultLeaf, Option.map_eq_some_iff] at hl
+  obtain ⟨c, hc, rfl⟩ := hl
+  exact ⟨c, hc, hg⟩
+
+/-- `routing.fallback` (interface default, rewritten by `patchMustOutbound` only when it starts with
+`must_`): an unwritten fallback is the documented default. -/
+theorem default_routing_fallback_applied (S : Schema) (dec : Dec) (fuel : Nat) (ss : List ASection) (st' : Store)
+    (h : configNew S dec fuel ss = .ok st') (hnames : (S.specs.map (·.name)).Nodup)
+    (sp : SectionSpec) (hsp : sp ∈ S.specs) (hname : sp.name = "routing".toList) (sid : Nat) (sd : StructDef)
+    (hkind : sp.kind = .struct sid) (hsd : S.structs[sid]? = some sd) (hfnd : (sd.fields.map (·.key)).Nodup)
+    (f : Field) (hf : f ∈ sd.fields) (hkey : f.key = "fallback".toList) (hfk : f.kind = .iface)
+    (d : List Char) (hd : f.dflt = some d) (hm : hasPrefixC d "must_".toList = false)
+    (hno : ∀ it ∈ itemsOf ss sp.name, it.key? ≠ some f.key) :
+    st'.get? pFallback = some (.istr d) :=
+  configNew_default_fallback S dec fuel ss st' h hnames sp hsp hname sid sd hkind hsd hfnd f hf hkey hfk d hd hm hno
+
+/-- `global.tcp_check_http_method` (rewritten to `CONNECT` by `patchTcpCheckHttpMethod` only when
+invalid): an unwritten method is the documented default when that default is a valid method. -/
+theorem default_http_method_applied (S : Schema) (dec : Dec) (fuel : Nat) (ss : List ASection) (st' : Store)
+    (h : configNew S dec fuel ss = .ok st') (hnames : (S.specs.map (·.name)).Nodup)
+    (sp : SectionSpec) (hsp : sp ∈ S.specs) (hname : sp.name = "global".toList) (sid : Nat) (sd : StructDef)
+    (hkind : sp.kind = .struct sid) (hsd : S.structs[sid]? = some sd) (hfnd : (sd.fields.map (·.key)).Nodup)
+    (f : Field) (hf : f ∈ sd.fields) (hkey : f.key = "tcp_check_http_method".toList) (k : Nat)
+    (hfk : f.kind = .scalar k) (d c : List Char) (hd : f.dflt = some d) (hc : dec k d = some c)
+    (hv : dec kindHttpMethod c ≠ none)
+    (hno : ∀ it ∈ itemsOf ss sp.name, it.key? ≠ some f.key) :
+    st'.get? pHttpMethod = some (.scalar k c) :=
+  configNew_default_http_method S dec fuel ss st' h hnames sp hsp hname sid sd hkind hsd hfnd f hf hkey k hfk d c hd hc
+    hv hno
 
 /-- the same for a struct at any nesting depth (`dns.routing.request`, a `group` element, …): after
-a successful `ParamParser`, an unwritten scalar field with a `default:` tag holds its default -/
+a successful `ParamParser`, an unwritten field with a `default:` tag holds its default -/
 theorem defaults_applied_any_depth (S : Schema) (dec : Dec) (n sid : Nat) (path : Path) (items : List AItem)
     (st st' : Store) (h : paramParser S dec (n + 1) sid path items st = .ok st')
     (sd : StructDef) (hsd : S.structs[sid]? = some sd) (hnd : (sd.fields.map (·.key)).Nodup)
-    (f : Field) (hf : f ∈ sd.fields) (k : Nat) (d : List Char) (hk : f.kind = .scalar k) (hd : f.dflt = some d)
+    (f : Field) (hf : f ∈ sd.fields) (d : List Char) (hd : f.dflt = some d)
     (hrk : f.key ≠ rulesKey) (hno : ∀ it ∈ items, it.key? ≠ some f.key) :
-    ∃ c, dec k d = some c ∧ st'.get? (sub path f.key) = some (.scalar k c) :=
-  paramParser_defaults S dec n sid path items st st' h sd hsd hnd f hf k d hk hd hrk hno
+    ∃ leaf, defaultLeaf dec f.kind d = some leaf ∧ st'.get? (sub path f.key) = some leaf :=
+  paramParser_defaults S dec n sid path items st st' h sd hsd hnd f hf d hd hrk hno
 
 /-- a miniature schema: one optional struct section `d` with a field `o` defaulting to `1` (and a
 `routing` section whose `fallback` defaults to `x`); the
@@ -322,7 +388,7 @@ example :
       pFallback, kindAddrPort, kindHttpMethod, hasPrefixC, List.isPrefixOf]
   obtain ⟨st, hst⟩ := hok
   refine ⟨st, hst, ?_⟩
-  obtain ⟨c, hc, hget⟩ := configNew_defaults S dec 4 [] st hst (by simp [S]) ⟨['d'], false, .struct 0⟩
+  obtain ⟨c, hc, hget⟩ := defaults_applied_scalar S dec 4 [] st hst (by simp [S]) ⟨['d'], false, .struct 0⟩
     (by simp [S]) 0 ⟨[⟨['o'], .scalar 1, some ['1'], false, false⟩], false⟩ rfl rfl (by simp)
     ⟨['o'], .scalar 1, some ['1'], false, false⟩ (by simp) 1 ['1'] rfl rfl (by decide) (by decide) (by decide)
     (by decide) (by simp [itemsOf, lookupSection])
